@@ -344,6 +344,20 @@ async fn h_typed(
     Ok(http::Response::builder().status(200).header("content-type", "text/plain").body(Body::from("typed")).unwrap())
 }
 
+/// GET /name/{name}: a string path variable (C18: escapes that are not UTF-8).
+#[derive(Deserialize, JsonSchema)]
+struct NamePath {
+    #[allow(dead_code)]
+    name: String,
+}
+#[endpoint { method = GET, path = "/name/{name}" }]
+async fn h_name(
+    _rqctx: RequestContext<Arc<Ctx>>,
+    _p: Path<NamePath>,
+) -> Result<http::Response<Body>, HttpError> {
+    Ok(http::Response::builder().status(200).header("content-type", "text/plain").body(Body::from("named")).unwrap())
+}
+
 /// GET /fail/{r}: handler returns an HttpError with status `r` (4xx/5xx).
 #[endpoint { method = GET, path = "/fail/{r}" }]
 async fn h_fail(
@@ -373,6 +387,7 @@ pub fn api() -> ApiDescription<Arc<Ctx>> {
     api.register(h_id).unwrap();
     api.register(h_echo).unwrap();
     api.register(h_typed).unwrap();
+    api.register(h_name).unwrap();
     api.register(h_fail).unwrap();
     api
 }
